@@ -20,7 +20,7 @@ P = {
     "theorems_module": "Properties.C16",
     "theorems": ["C16_system_claims_win", "C16_exp_is_ttl_later", "C16_load_accepts_exactly_usable", "C16_load_never_panics",
                  "C16_header_names_active_key", "C16_token_verifies_against_published", "C16_jwks_public_only",
-                 "C16_run_meets_spec", "C16_run_meets_spec_pinned", "C16_F1_pinned_refuted", "C16_nonvacuous",
+                 "C16_run_meets_spec", "C16_run_meets_spec_pinned", "C16_F1_pinned_refuted", "C16_variant_overlays_catalogue", "C16_variant_token", "C16_nonvacuous",
                  "C16_consistent_pair", "C16_sign_sees_one_load", "C16_torn_skeleton_refuted"],
     "streams": [{
         "name": "histories", "pkg": _PKG, "test": "TestVerifC16",
@@ -43,7 +43,9 @@ P = {
             "duplicate; certificate chains none/self-signed/CA/CA+intermediate, with or without subject key id, flawed: no "
             "digitalSignature usage, expired, not yet valid; block order keys-first/certs-first/interleaved; malformed: missing file, "
             "directory, unsupported block, bad DER, wrong password, no PEM at all, truncated) x 2-8 operations (Execute for one of 4 "
-            "subjects / replace the file + OnChanged, biased to 'same key ids, other keys', rotation, dropping entries / GET JWKS) "
+            "subjects, 40% of them on a rule-level variant made by the real WithConfig from an override with every subset of "
+            "{ttl, claims}, the empty override, or — malformed share — a member WithConfig must refuse (header/signer/values) or "
+            "ttl <= 1s / replace the file + OnChanged, biased to 'same key ids, other keys', rotation, dropping entries / GET JWKS) "
             "through the real newJWTFinalizer, Execute, OnChanged, key-holder registry and management service; every token decomposed "
             "and verified with go-jose against the JWKS body served right after it; non-trivial = a run that issued a token and either "
             "issued one after a successful reload or has a template naming a reserved claim; distinct by hash of the generated input. "
@@ -78,7 +80,8 @@ P = {
                   "that passes wf_skeleton, every set of concurrent calls and every interleaving, all reads of one call see the "
                   "fields of one load, with key, JWK and published set of that load at each read. Tied to the code by ~600 (quick) / "
                   "12000 (thorough) generated histories through the real finalizer, signer, key store, registry and management "
-                  "service per run, by re-extracting and checking the skeleton of jwt_signer.go on every run, and by a -race stress run.",
+                  "service per run (incl. rule-level variants created by the real WithConfig: a variant is the catalogue configuration "
+                  "overlaid with exactly the given ttl/claims, exp-iat is that effective ttl), by re-extracting and checking the skeleton of jwt_signer.go on every run, and by a -race stress run.",
     "level_note": "Partial: cryptography, PEM/X.509/JSON/template handling and the clock are trusted/observed, not modelled; the "
                   "interleaving theorem is about the extracted lock skeleton under an idealised RWMutex, the Go memory model is not "
                   "modelled (the race detector stream covers actual races only as far as its schedules go). Finding C16-F1 "
@@ -91,8 +94,8 @@ P = {
                   "not counted as a finding. Concurrent reloads (watcher fires OnChanged in goroutines) may install the older of two "
                   "files last; the state stays consistent, convergence is C18's subject.",
     "assumptions": [
-        "one finalizer per run; Outputs() is empty and subject attributes are constant, so the token cache key varies only in "
-        "(kid, alg, issuer, subject) within a run",
+        "one catalogue finalizer (plus its rule-level variants) per run; Outputs() is empty and subject attributes are constant, so "
+        "the token cache key varies only in (kid, alg, key, issuer, ttl, template, subject) within a run",
         "reloads are triggered by calling OnChanged directly after replacing the file (fsnotify delivery is not part of the check)",
         "the driver reads jwtSigner.Keys() slice identity to tell a successful reload from a failed one (OnChanged only logs)",
     ],
